@@ -113,7 +113,7 @@ def run(obs, scratch, scratch_repo, log, seed=0):
             if os.path.exists(json_out):
                 os.remove(json_out)
             crate_dir = os.path.join(scratch_repo, crate)
-            nj = min(jobs_each, len(g))
+            nj = min(jobs_each if par < 3 else (10 if weight == "heavy" else 4), len(g))
             cmd = kani_cmd(crate_dir, [o.fqn for o in g], checks, timeout, json_out, nj)
             t0 = time.time()
             overall = timeout * (1 + len(g) // max(nj, 1)) + 900
